@@ -70,6 +70,83 @@ type oframe struct {
 	depth int
 	// orig: for parameters that are not strings, the value they stand for in the outermost frame
 	orig map[ssa.Value]ssa.Value
+	// args: what each parameter stands for in the calling frame
+	args map[ssa.Value]boundVal
+}
+
+type boundVal struct {
+	v  ssa.Value
+	fr *oframe
+}
+
+// fieldValue: the value stored in field #field of the struct that base designates (a local struct, a literal, a
+// parameter bound to one of those in a calling frame), with the block of the store and the frame it lives in.
+func (oe *outEval) fieldValue(base ssa.Value, field int, fr *oframe, depth int) (ssa.Value, *ssa.BasicBlock, *oframe, bool) {
+	if depth > 8 || base == nil {
+		return nil, nil, nil, false
+	}
+	switch x := base.(type) {
+	case *ssa.Alloc:
+		var st *ssa.Store
+		n := 0
+		var whole *ssa.Store
+		for _, ref := range *x.Referrers() {
+			switch y := ref.(type) {
+			case *ssa.FieldAddr:
+				if y.Field != field {
+					continue
+				}
+				for _, r2 := range *y.Referrers() {
+					if s2, ok := r2.(*ssa.Store); ok && s2.Addr == ssa.Value(y) {
+						st = s2
+						n++
+					}
+				}
+			case *ssa.Store:
+				if y.Addr == ssa.Value(x) {
+					if whole != nil {
+						return nil, nil, nil, false
+					}
+					whole = y
+				}
+			}
+		}
+		if n == 1 && (whole == nil || isZeroConst(whole.Val)) {
+			return st.Val, st.Block(), fr, true
+		}
+		if n == 0 && whole != nil {
+			return oe.fieldValue(whole.Val, field, fr, depth+1)
+		}
+	case *ssa.Parameter:
+		if b, ok := fr.args[x]; ok {
+			return oe.fieldValue(b.v, field, b.fr, depth+1)
+		}
+	case *ssa.UnOp:
+		if x.Op == token.MUL {
+			return oe.fieldValue(x.X, field, fr, depth+1)
+		}
+	case *ssa.MakeInterface:
+		return oe.fieldValue(x.X, field, fr, depth+1)
+	}
+	return nil, nil, nil, false
+}
+
+func isZeroConst(v ssa.Value) bool {
+	c, ok := v.(*ssa.Const)
+	return ok && c.Value == nil
+}
+
+// fieldLoad: v reads a field of a struct: the struct designator and the field index.
+func fieldLoad(v ssa.Value) (ssa.Value, int, bool) {
+	switch x := v.(type) {
+	case *ssa.Field:
+		return x.X, x.Field, true
+	case *ssa.UnOp:
+		if fa, ok := x.X.(*ssa.FieldAddr); ok && x.Op == token.MUL {
+			return fa.X, fa.Field, true
+		}
+	}
+	return nil, 0, false
 }
 
 // rootOf: the value of the outermost frame that v stands for (through interface wrapping).
@@ -93,6 +170,16 @@ func (fr *oframe) rootOf(v ssa.Value) ssa.Value {
 	}
 	return v
 }
+
+// paramContentMarkBase: placeholder keys of the contents of safe-type parameters
+const paramContentMarkBase = 5800
+
+// joinOpen/joinSep/joinClose: in skeleton mode a path join is written as ⟦ part ‖ part ‖ … ⟧ with these symbols
+const (
+	joinOpen  = rune(0xF7F0)
+	joinSep   = rune(0xF7F1)
+	joinClose = rune(0xF7F2)
+)
 
 // jsonMarkBase: placeholder keys of encoder outputs, by the index of the top-level parameter encoded
 const jsonMarkBase = 5900
@@ -154,6 +241,16 @@ func (oe *outEval) safeStructContent(v ssa.Value, b *ssa.BasicBlock, fr *oframe)
 	switch x := v.(type) {
 	case *ssa.Const:
 		return lxLit(""), true
+	case *ssa.Parameter:
+		if b, ok := fr.args[x]; ok {
+			return oe.safeStructContent(b.v, b.fr.fn.Blocks[0], b.fr)
+		}
+		// a safe value handed to the function under analysis: its content is opaque
+		for i, q := range x.Parent().Params {
+			if q == x {
+				return &lx{Kind: "named", Name: "any", Mark: paramContentMarkBase + i}, true
+			}
+		}
 	case *ssa.UnOp:
 		if al, ok := x.X.(*ssa.Alloc); ok && x.Op == token.MUL {
 			var alts []*lx
@@ -232,6 +329,7 @@ func newOutEval(p *Program, s *Summarizer) *outEval {
 		"int":     `-?[0-9]+`,
 		"hexup":   `[0-9A-F]+`,
 		"hexlow":  `[0-9a-f]+`,
+		"any":     `[\s\S]*`,
 	}}
 }
 
@@ -291,6 +389,12 @@ func (x *lx) String() string {
 		return "writes(" + strings.TrimPrefix(fnName(x.Buf.fn), modulePath) + ")"
 	case "none":
 		return "∅"
+	case "join":
+		var ss []string
+		for _, p := range x.Parts {
+			ss = append(ss, p.String())
+		}
+		return "Join(" + strings.Join(ss, ", ") + ")"
 	case "trimsuffix", "trimprefix", "cutprefix", "cutsuffix":
 		return fmt.Sprintf("%s(%s, %q)", x.Kind, x.Parts[0].String(), x.S)
 	}
@@ -370,6 +474,10 @@ func (oe *outEval) strLx(v ssa.Value, b *ssa.BasicBlock, fr *oframe) *lx {
 		if isStringish(x.X.Type()) || isByteSlice(x.X.Type()) {
 			return oe.sliceLx(x, b, fr)
 		}
+	case *ssa.Field:
+		if val, blk, vfr, ok := oe.fieldValue(x.X, x.Field, fr, 0); ok {
+			return oe.strLx(val, blk, vfr)
+		}
 	case *ssa.Convert:
 		if isStringish(x.X.Type()) || isByteSlice(x.X.Type()) {
 			return oe.strLx(x.X, b, fr)
@@ -396,8 +504,45 @@ func (oe *outEval) strLx(v ssa.Value, b *ssa.BasicBlock, fr *oframe) *lx {
 				return oe.strLx(st.Val, st.Block(), fr)
 			}
 		}
+		// a field of a local struct, or of a struct handed in by a caller
+		if fa, ok := x.X.(*ssa.FieldAddr); ok && x.Op == token.MUL {
+			if val, blk, vfr, ok := oe.fieldValue(fa.X, fa.Field, fr, 0); ok {
+				return oe.strLx(val, blk, vfr)
+			}
+		}
 	}
 	return lxAny()
+}
+
+// seedFieldTerms: reads of string fields of structs that a caller filled with terms are those terms (so that
+// conditions on them inside the callee are conditions on the caller's terms).
+func (oe *outEval) seedFieldTerms(fr *oframe, callBlock *ssa.BasicBlock, caller *oframe) {
+	for _, b := range fr.fn.Blocks {
+		for _, in := range b.Instrs {
+			v, ok := in.(ssa.Value)
+			if !ok || !(isStringish(v.Type()) || isByteSlice(v.Type())) {
+				continue
+			}
+			if _, bound := fr.env[v]; bound {
+				continue
+			}
+			base, field, ok := fieldLoad(v)
+			if !ok {
+				continue
+			}
+			val, _, vfr, ok := oe.fieldValue(base, field, fr, 0)
+			if !ok || vfr == fr {
+				continue
+			}
+			if t, ok := oe.s.termOf(val, vfr.env); ok {
+				fr.env[v] = t
+				// what the caller knows about the term where it makes the call still holds in the callee
+				if callBlock != nil && caller != nil && !t.Lower && !t.Upper && t.Strip == nil && !t.Unesc {
+					fr.bind[v] = oe.boundTerm(t, oe.s.blockCond(callBlock, caller.env, "field "+termStr(t)), caller)
+				}
+			}
+		}
+	}
 }
 
 func isByteSlice(t types.Type) bool {
@@ -510,10 +655,25 @@ func (oe *outEval) callLx(call *ssa.Call, idx int, b *ssa.BasicBlock, fr *oframe
 			}
 			return &lx{Kind: "named", Name: "json", Mark: mark}
 		}
+	case "path/filepath.Join", "path.Join":
+		if args, ok := variadicArgs(c.Args[0]); ok {
+			var parts []*lx
+			for _, a := range args {
+				parts = append(parts, oe.strLx(a, call.Block(), fr))
+			}
+			return &lx{Kind: "join", Parts: parts}
+		}
+		return oe.note("a path join of a list the evaluator cannot follow at %s", oe.p.Pos(call.Pos()))
 	case "strconv.Quote":
 		return &lx{Kind: "named", Name: "goquote"}
 	case "strconv.Itoa":
 		return &lx{Kind: "named", Name: "int"}
+	}
+	// the String accessor of a safe type: the content of the value
+	if f.Name() == "String" && f.Signature.Recv() != nil && len(c.Args) == 1 {
+		if x, ok := oe.safeStructContent(c.Args[0], call.Block(), fr); ok {
+			return x
+		}
 	}
 	if f.Blocks != nil && f.Pkg != nil && strings.HasPrefix(f.Pkg.Pkg.Path(), modulePath) {
 		res := oe.inlineLx(f, c.Args, idx, call.Block(), fr)
@@ -544,12 +704,13 @@ func (oe *outEval) inlineLx(f *ssa.Function, args []ssa.Value, idx int, b *ssa.B
 	if fr.depth >= 5 || oe.active[f] > 0 {
 		return lxAny()
 	}
-	fr2 := &oframe{fn: f, env: termEnv{}, bind: map[ssa.Value]*lx{}, depth: fr.depth + 1, orig: map[ssa.Value]ssa.Value{}}
+	fr2 := &oframe{fn: f, env: termEnv{}, bind: map[ssa.Value]*lx{}, depth: fr.depth + 1, orig: map[ssa.Value]ssa.Value{}, args: map[ssa.Value]boundVal{}}
 	for i, prm := range f.Params {
 		if i >= len(args) {
 			continue
 		}
 		fr2.orig[prm] = fr.rootOf(args[i])
+		fr2.args[prm] = boundVal{args[i], fr}
 		if !isStringish(prm.Type()) {
 			oe.s.bindValue(prm, args[i])
 		}
@@ -582,6 +743,7 @@ func (oe *outEval) inlineLx(f *ssa.Function, args []ssa.Value, idx int, b *ssa.B
 	if oe.Tokens {
 		oe.seedTokens(fr2)
 	}
+	oe.seedFieldTerms(fr2, b, fr)
 	oe.active[f]++
 	defer func() { oe.active[f]-- }()
 	var alts []*lx
@@ -842,6 +1004,8 @@ func (oe *outEval) register(x *lx, L *Lang, seen map[*lx]bool) error {
 	}
 	seen[x] = true
 	switch x.Kind {
+	case "join":
+		L.AddString(string([]rune{joinOpen, joinSep, joinClose}))
 	case "lit", "trimsuffix", "trimprefix", "cutprefix", "cutsuffix":
 		L.AddString(x.S)
 	case "set":
@@ -962,6 +1126,23 @@ func (oe *outEval) compile(x *lx, L *Lang, memo map[*lx]*relang.DFA) (*relang.DF
 			startsK := relang.Concat(lit, L.All())
 			d = relang.Union(relang.Minus(pd, startsK), relang.LeftQuotientLiteral(pd, x.S)).Minimize()
 		}
+	case "join":
+		if !oe.Markers {
+			d = L.All() // the cleaned join of the parts is not a regular function of them
+			break
+		}
+		d = relang.Literal(L.A, string(joinOpen))
+		for i, p := range x.Parts {
+			pd, err := oe.compile(p, L, memo)
+			if err != nil {
+				return nil, err
+			}
+			if i > 0 {
+				d = relang.Concat(d, relang.Literal(L.A, string(joinSep)))
+			}
+			d = relang.Concat(d, pd)
+		}
+		d = relang.Concat(d, relang.Literal(L.A, string(joinClose))).Minimize()
 	case "cutprefix", "cutsuffix":
 		pd, err := oe.compile(x.Parts[0], L, memo)
 		if err != nil {
